@@ -23,12 +23,17 @@ def walk(rm, request, context=None):
     depth = 0
     while True:
         if not request:
-            return ("missing", depth)
+            return ("exhausted", depth)
         key, opts = request[0], request[1:]
         if key not in rm.request_types:
             return ("missing", depth)
         rt = rm.request_types[key]
-        if not rt.validator(opts, context or {}):
+        try:
+            ok = rt.validator(opts, context or {})
+        except (IndexError, KeyError, TypeError) as e:
+            # the validator needs parameters the request does not carry: malformed parameters, not a missing component
+            return ("malformed", depth, type(e).__name__)
+        if not ok:
             return ("refused", depth, type(rt.validator).__name__)
         if isinstance(rt.func, RequestManager):
             rm, request, depth = rt.func, opts, depth + 1
